@@ -29,6 +29,12 @@ def _jobs(tier, seed):
                 if r.random() < 0.6:
                     kinds[name] = r.choice(["k0", "kF", "kS", "kL"])
             tconst = {t: r.choice(["k0", "kF", "kS", "kL"]) for t in "abc" if t not in tact and r.random() < 0.4}
+        if i % 3 == 1:
+            # built-in actions named in the grammar (@pass_inner ...) on rules without named matches (pass_single: no empty alternative)
+            for name, alts in rules[1:]:
+                if r.random() < 0.6 and not any(it.get("name") for alt in alts for it in alt):
+                    opts = ["pass_none", "pass_nochange", "pass_empty", "pass_inner"] + (["pass_single"] if all(len(a) >= 1 for a in alts) else [])
+                    kinds[name] = r.choice(opts)
         # a rule written in two pieces with another rule in between (alternative numbering must follow the grammar order)
         # (not for rules with named matches: pieces with and without assignments are an undocumented combination)
         split = r.random() < 0.35 and len(rules) >= 2 and len(rules[0][1]) >= 2 and not any(it.get("name") for alt in rules[0][1] for it in alt)
@@ -50,12 +56,15 @@ def helper_kind(name):
     return None
 
 
+BUILTIN = ("pass_none", "pass_nochange", "pass_empty", "pass_single", "pass_inner")
+
+
 def grammar_text(job):
     rules = job["rules"]
     if job.get("split"):
         name, alts = rules[0]
         rules = [(name, alts[:1])] + rules[1:] + [(name, alts[1:])]
-    return sugar.text(rules), rules
+    return sugar.text(rules, acts={n: k for n, k in job["kinds"].items() if k in BUILTIN}), rules
 
 
 def tagval(v):
@@ -128,6 +137,7 @@ def worker(job):
             p1 = real.Parser(g, actions=used)
             p2 = real.Parser(g, actions=used, build_tree=True)
             p3 = real.GLRParser(g, actions=used)
+            p4 = real.Parser(g, actions=used, build_tree=True, call_actions_during_tree_build=True)
     except Exception as e:  # noqa: BLE001  (conflicts: not an LR grammar -> not a case for C09)
         return [{"skip": "%s" % type(e).__name__}]
     prods = real.prods_json(g)
@@ -176,6 +186,11 @@ def worker(job):
                     case[key] = {"ok": True, "v": tagval(fn()), "single": True}
             except Exception as e:  # noqa: BLE001
                 case[key] = {"ok": False, "v": ["n"], "single": True, "err": type(e).__name__}
+        try:
+            with real.guard(10), real.quiet():
+                case["r4"] = {"ok": True, "tree": dump_tree(p4.parse(w))}
+        except Exception as e:  # noqa: BLE001
+            case["r4"] = {"ok": False, "tree": case["tree"], "err": type(e).__name__}
         case["gtree"] = case["tree"]
         try:
             with real.guard(5), real.quiet():
@@ -202,7 +217,7 @@ def judge(cases, tag_="act"):
     out = []
     for i, c in enumerate(cases):
         out.append({"name": c["name"], "gtext": c["gtext"], "kinds": c["kinds"], "tactions": c["tactions"], "input": c["input"], "origin": c["origin"],
-                    "routes": {k: {"ok": c[k]["ok"], "err": c[k].get("err", "")} for k in ("r1", "r2", "r3")},
+                    "routes": {k: {"ok": c[k]["ok"], "err": c[k].get("err", "")} for k in ("r1", "r2", "r3", "r4")},
                     "sugar": any(k not in ("none", "single", "list", "obj") for k in c["akind"].values()),
                     "named": any(c["assign"]), "clauses": sorted(v[i][2])})
     return out, {"states": sum(r.distinct for r in rs), "generated": sum(r.generated for r in rs)}
